@@ -421,6 +421,16 @@ class Replayer:
         for i, col in enumerate(ex['data']):
             if not same(df.iloc[:, i].to_numpy(), reals(col)) or df.iloc[:, i].dtype.kind != 'f':
                 self.diff('export:data', column=cols[i], got=df.iloc[:, i].tolist(), expected=col)
+        # a model constructed from the alias-headed table (constructor keywords through aliases) is the model again
+        try:
+            back = type(a).from_dataframe(df.drop(columns=['status', 'iterations']), strict=self.strict)
+            for i, col in enumerate(ex['data']):
+                name = cols[i]
+                if not same(back[name], reals(col)):
+                    self.diff('export:from_dataframe-through-aliases', column=name, got=np.asarray(back[name]).tolist(), expected=col)
+                    break
+        except Exception as e:
+            self.diff('export:from_dataframe-through-aliases', got=f'{type(e).__name__}: {e}'[:300])
         twin = c.to_dataframe()
         if df.shape != twin.shape or not all(same(df.iloc[:, i].to_numpy(), twin.iloc[:, i].to_numpy()) for i in range(df.shape[1])):
             self.diff('export:differs-from-twin')
